@@ -23,7 +23,7 @@ Proof.
   { destruct ref as [r0|]; cbn in Hp.
     - destruct (locate_inv s p r0 I Hp) as (i & b & j & Hb & Ht & Ek & Hh & Hi).
       exists i, b, j. split; [exact Hb|]. split; [apply nth_error_in_len in Ht; lia|]. split; [exact Ek|].
-      unfold check_handle. fold (hnd s r0). rewrite Hh. fold (bidx s b). rewrite Hi. reflexivity.
+      rewrite check_handle_hnd, Hh. fold (bidx s b). rewrite Hi. reflexivity.
     - destruct (first_block s I) as [b0 Hb0]. exists 0%nat, b0, 0%nat.
       split; [exact Hb0|]. split; [lia|]. split; [subst p; reflexivity|reflexivity]. }
   assert (exists ei be ej, nth_error (s_blocks s) ei = Some be /\ (ej <= length (toks s be))%nat /\
@@ -38,7 +38,7 @@ Proof.
     - destruct Hq as [Lpq Hd]. destruct (locate_inv s (q - 1) d I Hd) as (i & b & j & Hb & Ht & Ek & Hh & Hi).
       pose proof (nth_error_in_len _ _ _ Ht) as Lj.
       exists i, b, (S j). split; [exact Hb|]. split; [lia|]. split; [lia|].
-      unfold check_handle. fold (hnd s d). rewrite Hh. fold (bidx s b). rewrite Hi. do 2 f_equal. lia.
+      rewrite check_handle_hnd, Hh. fold (bidx s b). rewrite Hi. do 2 f_equal. lia.
     - exists si, bs, sj. split; [exact Hbs|]. split; [exact Lsj|]. split; [lia|reflexivity]. }
   exists si, bs, sj, ei, be, ej. repeat (split; [assumption|]). unfold splice. rewrite Est, Een. reflexivity.
 Qed.
@@ -133,7 +133,7 @@ Proof.
   destruct ref as [r0|].
   - destruct Hp as [L1 Hr]. destruct (locate_inv s (p - 1) r0 I Hr) as (i & b & j & Hb & Htj & Ek & Hh & Hi).
     pose proof (nth_error_in_len _ _ _ Htj) as Lj.
-    unfold check_handle. fold (hnd s r0). rewrite Hh. fold (bidx s b). rewrite Hi.
+    rewrite check_handle_hnd, Hh. fold (bidx s b). rewrite Hi.
     replace (Z.of_nat j + 1) with (Z.of_nat (S j)) by lia.
     apply (splice__refuses_pos LF s tokens i b (S j) i b (S j) t k II Hb ltac:(lia) Hb ltac:(lia) Ht Hk). cbv zeta. lia.
   - destruct (first_block s I) as [b0 Hb0].
